@@ -20,7 +20,7 @@ fi
 go build ./... > "$SCR/build.log" 2>&1; RC_BUILD=$?
 go build -tags verif ./... >> "$SCR/build.log" 2>&1; RC_BUILD2=$?
 SUITE_OK=0
-for i in 1 2 3; do if timeout 900 go test -vet=off -count=1 ./... > "$SCR/suite.log" 2>&1; then SUITE_OK=1; break; fi; done
+for i in 1 2 3; do if timeout 900 unshare -n sh -c "ip link set lo up; go test -vet=off -count=1 ./..." > "$SCR/suite.log" 2>&1; then SUITE_OK=1; break; fi; done
 demo with; RC_WITH=$?
 git diff > "$SCR/patch.rebased.diff" 2>/dev/null || true
 echo "demo_without_rc=$RC_WITHOUT build_rc=$RC_BUILD/$RC_BUILD2 suite_ok=$SUITE_OK demo_with_rc=$RC_WITH"
